@@ -173,3 +173,11 @@ pub(crate) mod harness;
 #[cfg(kani)]
 #[path = "/verif/kani/harness_raw_iter.rs"]
 mod harness_iter;
+
+#[cfg(kani)]
+#[path = "/verif/kani/harness_raw_cb.rs"]
+mod harness_cb;
+
+#[cfg(kani)]
+#[path = "/verif/kani/harness_raw_life.rs"]
+mod harness_life;
